@@ -38,6 +38,57 @@ func ruleT1e(c *Ctx) {
 			if c.L.isGeneratedFile(f) {
 				continue
 			}
+			// the same judgement for one case clause that lists register names: `case "EAX", "ECX", …:`
+			ast.Inspect(f, func(x ast.Node) bool {
+				cc, ok := x.(*ast.CaseClause)
+				if !ok || len(cc.List) < 4 {
+					return true
+				}
+				names := map[string]bool{}
+				cls := ""
+				for _, e := range cc.List {
+					s, ok := constStr(p.TypesInfo, e)
+					if !ok {
+						return true
+					}
+					r, known := o.Registers[strings.ToUpper(s)]
+					if !known || (cls != "" && r.Class != cls) {
+						return true
+					}
+					cls = r.Class
+					names[strings.ToUpper(s)] = true
+				}
+				if cls == "" || len(names) < 4 {
+					return true
+				}
+				n++
+				where := ""
+				if fd := enclosingFunc(f, cc.Pos()); fd != nil {
+					where = fdName(fd)
+				}
+				var nl []string
+				for k := range names {
+					nl = append(nl, k)
+				}
+				sort.Strings(nl)
+				key := fmt.Sprintf("%s.%s|%s case list %s", rel, where, cls, strings.Join(nl, ","))
+				addr16 := map[string]bool{"BX": true, "BP": true, "SI": true, "DI": true, "SP": true}
+				all16 := cls == "r16"
+				for k := range names {
+					if !addr16[k] {
+						all16 = false
+					}
+				}
+				switch {
+				case all16:
+					c.ok("T1e", key, c.L.Pos(cc.Pos()), "16-bit address registers (proper subset by the ISA)")
+				case len(names) >= classSize[cls] || (cls == "r64" && len(names) >= 8):
+					c.ok("T1e", key, c.L.Pos(cc.Pos()), "complete")
+				default:
+					c.fail("T1e", key, c.L.Pos(cc.Pos()), fmt.Sprintf("case lists %d of the %d %s registers: the missing one(s) are silently treated as not belonging to the class (e.g. [ESP+4] loses its address-size prefix)", len(names), classSize[cls], cls))
+				}
+				return true
+			})
 			ast.Inspect(f, func(x ast.Node) bool {
 				cl, ok := x.(*ast.CompositeLit)
 				if !ok || len(cl.Elts) < 4 {
